@@ -89,18 +89,26 @@ def body(ua, ub, rep, stmt):
 def check(run):
     tier = run.tier
     cls = classes(tier)
-    reps_neg = ["double", "int32_t", "uint8_t"] if tier == "quick" else ["double", "int32_t", "uint8_t", "float", "int64_t", "uint16_t", "long double"]
+    # thorough: the 10 core classes get 4 reps on all six configurations; the extended classes (one per remaining
+    # library dimension) get rep double on the two corner configurations; see the sizing note in DESIGN.md section 13
+    reps_neg = ["double", "int32_t", "uint8_t"] if tier == "quick" else ["double", "int32_t", "uint8_t", "int64_t"]
+    ncore = 10
     probes20, probes = [], []     # C++20-only probes kept apart
+
+    core_names = set(u.name for c in cls[:ncore] for u in c)
 
     def add(lst, pid, ua, ub, rep, stmt, expect):
         lst.append(core.Probe(pid, body(ua, ub, rep, stmt), expect, {"a": ua.name, "b": ub.name, "rep": rep, "op": pid[0],
-                                                                     "dedup": tuple(sorted((ua.name, ub.name)))}))
+                                                                     "dedup": tuple(sorted((ua.name, ub.name))),
+                                                                     "core": pid[1] != "lib" and ua.name in core_names and (ub.name in core_names or pid[1] == "twin")}))
 
     # negative: every ordered pair of distinct classes x every op
     for i, j in itertools.permutations(range(len(cls)), 2):
         ua, ub = cls[i][0], cls[j][0]
         for rep in reps_neg:
             if tier == "quick" and rep != "double" and (i + j) % 3:
+                continue
+            if (i >= ncore or j >= ncore) and rep != "double":
                 continue
             ops = list(BIN_OPS) + (FLOAT_OPS if rep in core.F3 else INT_OPS) + POINT_OPS
             for name, stmt in ops:
@@ -173,8 +181,14 @@ def check(run):
     counts = {"accept": 0, "reject": 0}
     twin_ok = set()
     neg_ok = set()
+    skipped_cfgs = []
     for cfg in cfgs:
+        if run.time_left() < 600:
+            skipped_cfgs.append(str(cfg))
+            continue
         plist = probes + (probes20 if cfg.std == "c++20" else [])
+        if tier == "thorough" and cfg not in core.CORNERS:
+            plist = [p for p in plist if p.meta["core"]]
         pres, _ = core.run_probes(cfg, plist, os.path.join(run.wd, "pr_" + cfg.name), "c01", PREAMBLE, flags=cflags(cfg), batch=40)
         for p in plist:
             v, diag = pres[p.pid]
@@ -209,7 +223,7 @@ def check(run):
                 "operation of the statement (Quantity and QuantityPoint forms) must be rejected; the same expression on same-dimension operands with a floating rep (integral "
                 "for %, where the documented policy allows) must be accepted; trait-style questions are evaluated in a TU that must compile. distinct_nontrivial = number of "
                 "operations for which both a rejected mismatch and an accepted same-dimension twin were observed.",
-        "operations": sorted(twin_ok | neg_ok), "configs": [str(c) for c in cfgs], "exhaustive": True,
+        "operations": sorted(twin_ok | neg_ok), "configs": [str(c) for c in cfgs], "configs_skipped_by_deadline": skipped_cfgs, "exhaustive": not skipped_cfgs,
         "exhaustive_note": "the stated class x operation grid is enumerated completely" + ("" if tier == "thorough" else " (quick: non-double reps on a fixed third of the class pairs)"),
         "samples": [{"op": p.pid[0], "a": p.meta["a"], "b": p.meta["b"], "rep": p.meta["rep"], "expect": p.expect} for p in probes[:: max(1, len(probes) // 6)]][:6],
     })
